@@ -32,7 +32,9 @@ P_idle_fq_bulk == [main |-> <<O("new", 2, 0), O("idle", 0, 0), O("fq", 1, 0), O(
                               O("quiet", 0, 0), O("del", 0, 0)>>]
 \* placed scheduling (steal rings) from an idle pool, no back-stop
 P_idle_placed == [main |-> <<O("new", 2, 0), O("idle", 0, 0), O("pfq", 1, 0), O("quiet", 0, 0), O("del", 0, 0)>>]
-P_idle_placed3 == [main |-> <<O("new", 3, 0), O("idle", 0, 0), O("pfq", 1, 0), O("placed", 2, 0), O("quiet", 0, 0), O("del", 0, 0)>>]
+\* (an `idle` gate between the two submissions: C07 speaks about submissions into a FULLY PARKED pool; a submission that
+\*  races workers on their way to park is the submit/park race that the back-stop covers by design - C01 with time-outs)
+P_idle_placed3 == [main |-> <<O("new", 3, 0), O("idle", 0, 0), O("pfq", 1, 0), O("idle", 0, 0), O("placed", 2, 0), O("quiet", 0, 0), O("del", 0, 0)>>]
 \* small configurations for the quick tier (no time-outs: parked workers stay parked)
 P_q2_basic == [main |-> <<O("new", 2, 0), O("fq", 1, 0), O("del", 0, 0)>>]
 P_q2_c08 == [main |-> <<O("new", 1, 0), O("rbulk", 1, 1), O("resize", 2, 0), O("quiet", 0, 0), O("del", 0, 0)>>]
@@ -42,4 +44,8 @@ P_q_basic == [main |-> <<O("new", 2, 0), O("fq", 1, 0), O("sched", 2, 0), O("del
 P_q_c08 == [main |-> <<O("new", 2, 0), O("rbulk", 1, 2), O("resize", 1, 0), O("quiet", 0, 0), O("del", 0, 0)>>]
 P_q_c03 == [main |-> <<O("new", 2, 0), O("up", 0, 0), O("rbulk", 1, 2), O("sync", 0, 0), O("del", 0, 0)>>,
             p2 |-> <<O("up", 0, 0), O("resize", 1, 0)>>]
+\* ThreadPool.tla implements the abstraction its clients are specified over (PoolAbs.tla)
+Abs == INSTANCE PoolAbs WITH Tasks <- TaskIds, alive <- S.alive, sub <- G.sub, ran <- G.ran
+Refines == Abs!Spec
+AbsInv == Abs!ExactlyOnceSoFar /\ Abs!NothingPendingWhenGone
 ==========================================================================
